@@ -256,8 +256,12 @@ class Session:
             kws = ''.join(' S%s %s' % (hx(k), v) for k, v in kw.items())
             if name == 'evalstr':
                 self.model_cmds.append('eval e%s %s%s' % (flags, ser(ast), kws))
-                with pass_flags(flags, False):
-                    r, ok, v = self.capture(lambda: w.eval(ast, **kwv))
+                if flags == '111':
+                    # all passes on: go through the public text API (Wal.eval_str = read + eval)
+                    r, ok, v = self.capture(lambda: w.eval_str(text, **kwv))
+                else:
+                    with pass_flags(flags, False):
+                        r, ok, v = self.capture(lambda: w.eval(ast, **kwv))
             elif name == 'evalstr_all':
                 self.model_ok = False        # every call site patched: oracle only
                 with pass_flags(flags, True):
@@ -267,7 +271,7 @@ class Session:
                 r, ok, v = self.capture(lambda: w.eval_context.eval(ast))
             else:
                 self.model_cmds.append('run %s%s' % (ser(ast), kws))
-                r, ok, v = self.capture(lambda: w.run(ast, **kwv))
+                r, ok, v = self.capture(lambda: w.run_str(text, **kwv))
             return (r if not ok else 'ok ' + ser(v)), ok
         if name in ('read', 'reads', 'wstr'):
             text = cmd[1]
